@@ -124,6 +124,13 @@ pub fn scratch_root() -> PathBuf {
     PathBuf::from(base).join("dst/target/run").join(format!("certs-{}", std::process::id()))
 }
 
+/// A path under the scratch root that no earlier run of this process has used (code under test may
+/// keep process-wide state keyed by file path; runs must stay independent of each other).
+pub fn fresh_scratch(name: &str) -> PathBuf {
+    let n = SCRATCH_COUNTER.fetch_add(1, Ordering::Relaxed);
+    scratch_root().join(format!("{name}-{n}"))
+}
+
 /// Runs the bundled generator (selium-tools gen-certs) in-process. Keys come from the run's
 /// entropy stream; `no_expiry` selects rcgen's fixed default validity so no wall clock enters.
 pub fn generate_certs(tag: &str) -> Result<CertDir> {
